@@ -123,7 +123,25 @@ def _padding(V, mode, H, k, stride, axis):
     return PT_ref, OH, padding[i0], padding[i1], skirt, explicit
 
 
-def rows(V, stride, mode, striped, hmax, kmax):
+class _Obj0:
+    def __init__(self, **kw):
+        self.__dict__.update(kw)
+
+
+def _real_create_padding(box, attr_pads, first, last, pad_top, pad_bottom, ifm_width, read_offset=None, read_shape=None):
+    """the real create_padding() on stand-in command / operation objects; attr_pads = (top, left, bottom, right) of the operator"""
+    import ethosu.vela.high_level_command_to_npu_op as h2n
+    from ethosu.vela.operation import NpuBlockType
+
+    cmd = _Obj0(is_first_h_stripe=first, is_last_h_stripe=last, pad_top=pad_top, pad_bottom=pad_bottom, ifm_box=box,
+                ps=_Obj0(ifm_shapes=[_Obj0(width=ifm_width, depth=16)]), ifm_tensor=None)
+    op = _Obj0(type=_Obj0(npu_block_type=NpuBlockType.ConvolutionDepthWise), attrs={"explicit_padding": tuple(attr_pads)},
+               read_offsets=[read_offset, None], read_shapes=[read_shape, None])
+    with core.shims((h2n, {"min": core.smin, "max": core.smax})):
+        return h2n.create_padding(cmd, op, None)
+
+
+def rows(V, stride, mode, striped, hmax, kmax, split=0):
     hl, go, gu = _mods()
     from ethosu.vela.shape4d import Shape4D
     from ethosu.vela.operation import NpuBlockType
@@ -145,14 +163,19 @@ def rows(V, stride, mode, striped, hmax, kmax):
             V.finding("C10-explicit-pad-after-kernel-smaller-than-stride", z3.And(L(k) < stride, z3.Not(B(striped))))
             V.finding("C10-pad-bottom-ofm-below-ifm", z3.And(B(striped), L(b) > L(H)))
         box = hl.Box([0, a, 0, 0], [1, b, 8, 16])
-        res, ptop, pbot = box.transform_with_strides_and_skirt([1, stride, 1, 1], list(skirt), Shape4D(1, H, 16, 16),
-                                                               NpuBlockType.ConvolutionDepthWise, [0, 0, 0, 0], k)
-    S, E = L(res.start_coord[1]), L(res.end_coord[1])
-    # create_padding rule
-    if striped:
-        p_t, p_b = L(ptop), L(pbot)
-    else:
-        p_t, p_b = L(p_top_attr), L(p_bot_attr)
+        if split:
+            # the operator reads a slice of a taller tensor (a Split / StridedSlice fused into it): rows [off, off + H) of a tensor of height off + H + below
+            off, below = V.int("read_offset", 0, hmax), V.int("rows_below_slice", 0, 8)
+            res, ptop, pbot = box.transform_with_strides_and_skirt([1, stride, 1, 1], list(skirt), Shape4D(1, off + H + below, 16, 16),
+                                                                   NpuBlockType.ConvolutionDepthWise, [0, 0, 0, 0], k, Shape4D(0, off, 0, 0), Shape4D(1, H, 16, 16))
+        else:
+            off = 0
+            res, ptop, pbot = box.transform_with_strides_and_skirt([1, stride, 1, 1], list(skirt), Shape4D(1, H, 16, 16),
+                                                                   NpuBlockType.ConvolutionDepthWise, [0, 0, 0, 0], k)
+    S, E = L(res.start_coord[1]) - L(off), L(res.end_coord[1]) - L(off)  # relative to the slice the operator reads
+    # the pads the register generator programs: the real create_padding (whole-operator pads from the attribute, per-stripe pads otherwise)
+    pads = _real_create_padding(res, (p_top_attr, 0, p_bot_attr, 0), not striped, not striped, ptop, pbot, 16)
+    p_t, p_b = L(pads.top), L(pads.bottom)
     return _sampling_claims(L(H), L(k), stride, L(a), L(b), L(y), L(t), PT, S, E, p_t, p_b)
 
 
@@ -171,7 +194,7 @@ def _sampling_claims(H, k, stride, a, b, y, t, PT, S, E, p_t, p_b, tag=""):
             (tag + "programmed pads are non-negative", z3.And(p_t >= 0, p_b >= 0))]
 
 
-def cols(V, stride, mode, hmax, kmax):
+def cols(V, stride, mode, hmax, kmax, split=0):
     """width axis, un-striped: create_padding keeps left/right because the box spans the full width"""
     hl, go, gu = _mods()
     from ethosu.vela.shape4d import Shape4D
@@ -188,13 +211,19 @@ def cols(V, stride, mode, hmax, kmax):
             V.finding("C10-explicit-pad-after-kernel-smaller-than-stride", L(k) < stride)
         zero = SInt(z3.IntVal(0)) if V.symbolic else 0  # keeps numpy's coordinate array at dtype=object
         box = hl.Box([0, 0, zero, 0], [1, 4, SInt(OW) if V.symbolic else z3.simplify(OW).as_long(), 16])
-        res, _, _ = box.transform_with_strides_and_skirt([1, 1, stride, 1], list(skirt), Shape4D(1, 4, W, 16),
-                                                         NpuBlockType.ConvolutionDepthWise, [0, 0, 0, 0], 1)
-    S, E = L(res.start_coord[2]), L(res.end_coord[2])
-    # create_padding: left kept iff box starts at column 0, right kept iff box ends at the IFM width
-    left = z3.If(S > 0, 0, L(p_l))
-    right = z3.If(E < L(W), 0, L(p_r))
-    return _sampling_claims(L(W), L(k), stride, L(0), OW, L(x), L(t), PL, S, E, left, right, tag="[width] ")
+        if split:
+            off, right_of = V.int("read_offset", 0, hmax), V.int("columns_right_of_slice", 0, 8)
+            wt = off + W + right_of
+            res, _, _ = box.transform_with_strides_and_skirt([1, 1, stride, 1], list(skirt), Shape4D(1, 4, wt, 16), NpuBlockType.ConvolutionDepthWise,
+                                                             [0, 0, 0, 0], 1, Shape4D(0, 0, off, 0), Shape4D(1, 4, W, 16))
+            pads = _real_create_padding(res, (0, p_l, 0, p_r), True, True, 0, 0, wt, Shape4D(0, 0, off, 0), Shape4D(1, 4, W, 16))
+        else:
+            off = 0
+            res, _, _ = box.transform_with_strides_and_skirt([1, 1, stride, 1], list(skirt), Shape4D(1, 4, W, 16),
+                                                             NpuBlockType.ConvolutionDepthWise, [0, 0, 0, 0], 1)
+            pads = _real_create_padding(res, (0, p_l, 0, p_r), True, True, 0, 0, W)
+    S, E = L(res.start_coord[2]) - L(off), L(res.end_coord[2]) - L(off)  # relative to the slice the operator reads
+    return _sampling_claims(L(W), L(k), stride, L(0), OW, L(x), L(t), PL, S, E, L(pads.left), L(pads.right), tag="[width] ")
 
 
 def rows_upscaled(V, kind, striped, hmax, kmax):
@@ -522,6 +551,11 @@ def instances(tier, seed):
                 out.append(dict(key="rows/%s/s%d/%s" % (mode, stride, "striped" if striped else "full"), fn="rows",
                                 params=dict(stride=stride, mode=mode, striped=striped, hmax=hmax, kmax=kmax)))
             out.append(dict(key="cols/%s/s%d" % (mode, stride), fn="cols", params=dict(stride=stride, mode=mode, hmax=hmax, kmax=kmax)))
+            # the operator reads a slice of a larger tensor (fused Split / StridedSlice): read offset and extent symbolic
+            out.append(dict(key="cols/%s/s%d/split" % (mode, stride), fn="cols", params=dict(stride=stride, mode=mode, hmax=hmax, kmax=kmax, split=1)))
+            for striped in (False, True):
+                out.append(dict(key="rows/%s/s%d/%s/split" % (mode, stride, "striped" if striped else "full"), fn="rows",
+                                params=dict(stride=stride, mode=mode, striped=striped, hmax=hmax, kmax=kmax, split=1)))
     for kind in ("bilinear", "bilinear_ac", "transpose_same", "transpose_valid"):
         for striped in (False, True):
             if striped and kind.startswith("transpose"):
